@@ -57,6 +57,8 @@ type Attr struct {
 	HasDefault bool   `json:"has_default,omitempty"`
 	Default    any    `json:"default,omitempty"`
 	Tag        int    `json:"tag,omitempty"` // gRPC field number (Field)
+	// Sec marks a credential attribute: "username", "password", "apikey:<scheme>", "token", "accesstoken"
+	Sec string `json:"sec,omitempty"`
 }
 
 // View is a result type view: the attribute names it contains, and for attributes that are
